@@ -77,6 +77,14 @@ def _run(case):
             ps.add_on_sense_callback(lambda se, t, d, i=i: cb.append((i, se, t, list(d), env.now)))
         # a consumer that keeps the list it was handed (without copying it)
         ps.add_on_sense_callback(lambda se, t, d: kept.append((d, [copy.copy(x) for x in d])))
+
+        def aligned(se, t, d):
+            # whoever looks at the stored window from inside a callback (a Cms does) sees aligned series
+            lens = {k if isinstance(k, str) else 'probe': len(v) for k, v in se.data.items()}
+            if len(set(len(v) for v in se.data.values())) != 1:
+                raise Violation('C19.alignment', f'inside an on-sense callback at {t} the series of the sensor have '
+                                f'different lengths: {[len(v) for v in se.data.values()]} (time series last)')
+        ps.add_on_sense_callback(aligned)
         if case.get('twin_name'):
             # a second, different sensor that carries the same user-chosen name
             box['twin'] = PeriodicSensor(case['twin_name'], [AttributeProbe('w', tg)], 'ps')
@@ -88,6 +96,9 @@ def _run(case):
         env.schedule_event(t0, -6, make_periodic, EventType.OTHER_HIGH_PRIORITY + 1)
     else:
         make_periodic()
+    if case.get('readd') and not t0 and 'ps' in case['cms']:
+        # the same add_sensor call repeated after the simulation has started: still registered once
+        env.schedule_event(case['readd'], -6, lambda: c.add_sensor(box['ps']), EventType.OTHER_LOW_PRIORITY)
     if case.get('fault'):
         tf, tr = case['fault']
         env.schedule_event(tf, -6, lambda: P.schedule_failure(env.now), EventType.OTHER_LOW_PRIORITY)
